@@ -190,6 +190,15 @@ def probe_ctor_sweep(case, seed):
                                                              vorticity_convection_scale=0.6, linear_coefficients=(-0.05, 0.0, 0.02),
                                                              order=3, dealiasing_fraction=0.6)
         C = 1
+    elif case.endswith("(scalar)"):
+        # a SCALAR coefficient swept in D >= 2 (the traced value is a 0-d array): the same numbers as Python floats one at a
+        # time — or, where the constructor documents "float or array of shape (D,)" and refuses a 0-d array eagerly as
+        # well, the same refusal
+        cname, arg = case[:-len("(scalar)")].split(".")
+        D, N = (2, 8) if seed % 2 == 0 else (3, 5)
+        params = jnp.asarray(rng.uniform(0.01, 0.2, (3,)))
+        mk = lambda p: getattr(st, cname)(D, 2.0, N, 0.1, **{arg: p})
+        C = 1
     else:
         raise KeyError(case)
     u = jnp.asarray(S.random_state(rng, C, D, N, "noise"))
@@ -197,6 +206,12 @@ def probe_ctor_sweep(case, seed):
         sts = eqx.filter_vmap(mk)(params)
         out = np.asarray(eqx.filter_vmap(lambda s: s(u))(sts))
     except Exception as e:  # noqa: BLE001
+        if case.endswith("(scalar)"):
+            try:
+                mk(jnp.asarray(params[0]))
+            except Exception as e2:  # noqa: BLE001
+                if type(e2) is type(e):
+                    return {"ok": True, "skipped": f"0-d array argument rejected eagerly too ({type(e).__name__})"}
         return {"ok": False, "exception": f"{type(e).__name__}: {str(e)[:160]}"}
     ref = np.stack([np.asarray(mk(p if p.ndim else float(p))(u)) for p in params])
     err = float(np.max(np.abs(out - ref)))
@@ -265,7 +280,9 @@ def probe_generic_sweep(name, D, N, order, seed, param, index=None, values=None)
 
 
 SWEEPS = ["Advection.velocity", "Diffusion.diffusivity", "Burgers.diffusivity", "KuramotoSivashinsky.dt",
-          "GeneralVorticityConvectionStepper.injection_scale"]
+          "GeneralVorticityConvectionStepper.injection_scale",
+          "Diffusion.diffusivity(scalar)", "AdvectionDiffusion.diffusivity(scalar)", "AdvectionDiffusion.velocity(scalar)",
+          "Advection.velocity(scalar)", "Dispersion.dispersivity(scalar)", "HyperDiffusion.hyper_diffusivity(scalar)"]
 
 
 def oracle(ctx, deep):
